@@ -13,7 +13,7 @@ LEVEL = "exploration"
 SHARDS = 16
 RULE = ("all shapes (rows, cols) in the listed square plus extras x factors x {CDELT, CD} x {file, in-memory HDUList} "
         "x image {row/col ramp, bilinear-between-nodes random, arbitrary random}; one case = one shape, all other "
-        "axes looped inside; non-trivial = factor >= 2 and the image has at least one complete cell or a residual; "
+        "axes looped inside; histories: per factor every ordered pair (A, B) of 24 shapes, expand A, B, A in one process (file and HDU list); non-trivial = factor >= 2 and the image has at least one complete cell or a residual; "
         "distinct = distinct (shape, factor, header kind, input kind, image kind)")
 ASSUMPTIONS = ["'linear between nodes' images are built by bilinear interpolation of random node values on the "
                "decimation grid, with the node values dyadic so float32 storage is exact",
